@@ -2110,6 +2110,9 @@ var c11edges = []string{
 	"R:((((((((",
 	"R:pub struct s?(\r\n    x : base.u8,\r\n)\r\n",
 	"R:pub\tstruct\ts?()\x0c\n",
+	"R:\r",
+	"R:pub status \"#x\"\r// c\rpub status \"#y\"\r",
+	"R:\x0b\x0c\x01\x1f pub status \"#x\"\x7f",
 	"R:pub struct s?()\x00",
 	"R:pub struct s?(\n    x : base.u8\n)\n",
 	"R:pub struct s?(x : base.u8, y : base.u8)",
